@@ -169,6 +169,21 @@ fn body_for(mem: &'static str, method: &'static str, usage: u64, ram_start: u32,
             let a = 1 + rng.below(usage - 2);
             s.push_str(&format!(".dseg\nv1: .byte {}\n.cseg\nnop\n.dseg\nv2: .byte {}\n", a, usage - a));
         }
+        // one unit too many, reached by going back: the memory is filled, an `.org` returns to its start,
+        // and more is put there and behind it. However an implementation treats the step back (an overlap
+        // error, shared storage), the memory does not get bigger (only generated for capacity + 1)
+        ("ram", "full-then-back-to-start") => {
+            if usage < 3 {
+                return None;
+            }
+            s.push_str(&format!(".dseg\nfirst: .byte {}\n.org 0x{:x}\nagain: .byte 1\n.cseg\nnop\n.dseg\nlast: .byte 1\n", usage - 1, ram_start));
+        }
+        ("eeprom", "full-then-back-to-start") => {
+            if usage < 3 {
+                return None;
+            }
+            s.push_str(&format!(".eseg\n.byte {}\n.org 1\n.db 1\n.cseg\nnop\n.eseg\n.db 2\n", usage - 1));
+        }
         _ => return None,
     }
     Some(s)
@@ -177,8 +192,8 @@ fn body_for(mem: &'static str, method: &'static str, usage: u64, ram_start: u32,
 fn methods(mem: &str) -> &'static [&'static str] {
     match mem {
         "flash" => &["org+nop", "org+dd", "org+jmp", "org+data-run", "instr-run"],
-        "eeprom" => &["org+db", "byte", "data-run"],
-        _ => &["byte", "org+byte", "bytes-interleaved"],
+        "eeprom" => &["org+db", "byte", "data-run", "full-then-back-to-start"],
+        _ => &["byte", "org+byte", "bytes-interleaved", "full-then-back-to-start"],
     }
 }
 
@@ -288,6 +303,9 @@ fn device_cases(name: Option<&str>, dev: &Device, placement: &'static str, rng: 
                     continue;
                 }
                 if placement != "top" && mi > 1 {
+                    continue;
+                }
+                if *m == "full-then-back-to-start" && usage != cap + 1 {
                     continue;
                 }
                 if let Some(body) = body_for(mem, m, usage, dev.ram_start, rng) {
